@@ -1,6 +1,7 @@
 // C10: tracer (engine S, path enumeration) and driver for tfel::math::CubicRoots of /repo.
 //   trace gen <out.v> <seed>  : complete decision tree of find_roots, depth-bounded tree of improve, Sym-vs-double agreement
 //   trace run                 : reads "a3 a2 a1 a0" per line on stdin, prints the results of the real code (double)
+//   trace improve             : reads "vp a3 a2 a1 a0" per line on stdin, prints the value left in vp by improve<double>
 #include "symtfel.hxx"
 #include "TFEL/Math/General/CubicRoots.hxx"
 #include <cstring>
@@ -151,6 +152,21 @@ int main(int argc, char** argv) {
     }
     return 0;
   }
-  std::fprintf(stderr, "usage: trace gen <out.v> <seed> | trace run < cases\n");
+  if (argc >= 2 && !std::strcmp(argv[1], "improve")) {
+    // reads "vp a3 a2 a1 a0" (hexadecimal floats, nan, inf) per line, prints the value left in vp by the real improve<double>
+    char w[5][64];
+    while (std::scanf("%63s %63s %63s %63s %63s", w[0], w[1], w[2], w[3], w[4]) == 5) {
+      double v[5];
+      for (int k = 0; k < 5; ++k) v[k] = std::strtod(w[k], nullptr);
+      const auto r = run_improve<double>(v[0], v[1], v[2], v[3], v[4]);
+      if (r[0] != r[0]) {
+        std::printf("I nan\n");
+      } else {
+        std::printf("I %a\n", r[0]);
+      }
+    }
+    return 0;
+  }
+  std::fprintf(stderr, "usage: trace gen <out.v> <seed> | trace run < cases | trace improve < cases\n");
   return 2;
 }
